@@ -2,7 +2,9 @@ package c20
 
 import (
 	"fmt"
+	"os"
 	"runtime"
+	"strings"
 	"sync"
 	"testing"
 
@@ -33,6 +35,19 @@ type syncJob struct {
 	f  func()
 }
 
+// onlyCase returns the case a replay is restricted to ("" when none).
+func onlyCase(run *ev.Run) string {
+	if c := os.Getenv("VERIF_ONLY_CASE"); c != "" {
+		return c
+	}
+	if m := run.Replaying(); m != nil {
+		if c, ok := m["case_id"].(string); ok {
+			return c
+		}
+	}
+	return ""
+}
+
 func runSyncJobs(run *ev.Run, jobs []syncJob) {
 	var wg sync.WaitGroup
 	ch := make(chan syncJob)
@@ -45,8 +60,10 @@ func runSyncJobs(run *ev.Run, jobs []syncJob) {
 			}
 		}()
 	}
+	only := onlyCase(run)
 	for _, j := range jobs {
-		if run.Want(j.id) {
+		// a crash prefix can only be replayed after its recording run
+		if run.Want(j.id) || (strings.HasSuffix(j.id, "/recorded-run") && strings.HasPrefix(only, strings.TrimSuffix(j.id, "recorded-run"))) {
 			ch <- j
 		}
 	}
@@ -56,9 +73,18 @@ func runSyncJobs(run *ev.Run, jobs []syncJob) {
 
 // finish records the case and its verdict.
 func (s *syncer) finish(kind string, out *outcome) {
-	nontrivial := s.compared > 0 || out != nil
-	s.run.Case(fmt.Sprintf("%s/src%d/p%d/%s/restarts[%s]/wrong[%s]/%s", kind, s.src.idx, s.p, s.sc.Mode, keysOf(s.restarts), keysOf(s.wrong), s.sc.ID), nontrivial)
+	nontrivial := s.compared > 0 || out != nil || len(s.soft) > 0
+	s.run.Case(fmt.Sprintf("%s/src%d/p%d/%s/%s/trusted%d/gc%d/restarts[%s]/wrong[%s]/%s", kind, s.src.idx, s.p, s.sc.Mode, s.sc.Backend, s.sc.Trusted, s.sc.GC, keysOf(s.restarts), keysOf(s.wrong), s.sc.ID), nontrivial)
 	s.run.Obs("sync_runs_"+kind+"_"+s.sc.Mode, 1)
+	if s.sc.Trusted > 0 {
+		s.run.Obs("sync_runs_with_trusted_header", 1)
+	}
+	if s.sc.GC > 0 {
+		s.run.Obs("sync_runs_with_gc_after_sync", 1)
+	}
+	if s.dir != "" {
+		s.run.Obs("sync_runs_on_"+s.sc.Backend, 1)
+	}
 	for k, v := range s.restarts {
 		s.run.Obs("sync_restarts_in_"+k, int64(v))
 	}
@@ -69,15 +95,18 @@ func (s *syncer) finish(kind string, out *outcome) {
 	s.run.Obs("sync_comparisons_with_source", int64(s.compared))
 	s.run.Obs("sync_operations", int64(len(s.ops)))
 	if out != nil {
-		s.run.Violation(out.sig, s.sc.ID, out.detail, s.witness())
+		s.soft = append(s.soft, out)
+	}
+	for _, o := range s.soft {
+		s.run.Violation(o.sig, s.sc.ID, o.detail, s.witness())
 	}
 }
 
 func syncPart(t *testing.T, run *ev.Run) {
 	type srcSpec struct{ blocks, interval, mtb int }
-	specs := []srcSpec{{44, 4, 10}, {40, 6, 6}}
+	specs := []srcSpec{{44, 4, 10}, {40, 6, 6}, {48, 5, 8}}
 	if ev.Tier() == "thorough" {
-		specs = []srcSpec{{60, 4, 10}, {56, 6, 6}, {64, 5, 8}, {60, 7, 12}, {50, 8, 5}, {70, 3, 10}}
+		specs = []srcSpec{{60, 4, 10}, {56, 6, 6}, {64, 5, 8}, {60, 7, 12}, {50, 8, 5}, {70, 3, 10}, {90, 9, 20}, {66, 4, 6}, {58, 6, 9}, {80, 10, 7}}
 	}
 	var (
 		srcs []*srcChain
@@ -103,11 +132,11 @@ func syncPart(t *testing.T, run *ev.Run) {
 			return
 		}
 		td := s.trie(s.n / uint32(s.I) * uint32(s.I) - uint32(s.I))
-		run.Sample(map[string]any{"source": s.idx, "protocol": s.h.PName, "blocks": s.n, "tx_kinds": s.h.P.KindsSummary(), "trie_nodes_at_a_sync_point": len(td.nodes), "of_them_reachable_by_several_paths": td.multi, "storage_items": len(td.items)})
+		run.Sample(map[string]any{"source": s.idx, "protocol": s.h.PName, "blocks": s.n, "tx_kinds": s.h.P.KindsSummary(), "trie_nodes_at_a_sync_point": len(td.nodes), "of_them_reachable_by_several_paths": td.multi, "branches_with_equal_children": td.twins, "storage_items": len(td.items)})
 		run.Obs("source_blocks", int64(s.n))
 	}
-	perSrc := ev.Pick(5, 10)
-	crashPerSrc := ev.Pick(1, 2)
+	perSrc := ev.Pick(12, 30)
+	crashPerSrc := ev.Pick(2, 4)
 	var jobs []syncJob
 	for si, src := range srcs {
 		other := srcs[(si+1)%len(srcs)]
@@ -125,22 +154,46 @@ func syncPart(t *testing.T, run *ev.Run) {
 			}
 			sc.Restart = map[string]int{"headers": 100, "data": 40, "blocks": 200, "synced": 150}
 			// some runs keep a stage free of restarts, so that the stages behind it are reached whatever happens there
+			sc.Late = sc.Mode == "mpt" && k%2 == 0
 			switch k % 5 {
 			case 1:
 				sc.Restart["data"] = 0
 			case 3:
 				sc.Restart["data"], sc.Restart["headers"] = 0, 0
 			case 4:
-				sc.Restart["blocks"] = 0
+				sc.Restart["blocks"], sc.Restart["synced"] = 0, 0
+			}
+			p := sc.Remote / uint32(src.I) * uint32(src.I)
+			if k%4 == 1 {
+				// header synchronisation starts from a trusted header instead of genesis
+				if lowest := uint32(max(2*src.I, src.mtb)) + 1; p > uint32(src.mtb) && p-uint32(src.mtb) >= lowest {
+					sc.Trusted = max(lowest, p-uint32(src.mtb)-uint32(r.Intn(3)))
+				}
+			}
+			if k%4 == 2 {
+				sc.GC = 2 + r.Intn(3)
+			}
+			switch k % 6 {
+			case 4:
+				sc.Backend = "bolt"
+			case 5:
+				sc.Backend = "level"
+			default:
+				sc.Backend = "mem"
 			}
 			jobs = append(jobs, syncJob{sc.ID, func() {
-				st := vchain.NewRecStore(storage.NewMemoryStore(), false)
+				st, dir, err := newStore(sc)
+				if err != nil {
+					run.Inconclusive("%s: %v", sc.ID, err)
+					return
+				}
 				s := newSyncer(t, run, sc, src, other, st)
+				s.dir = dir
 				out := s.open("fresh-node")
 				if out == nil {
 					out = s.drive("after-sync")
 				}
-				s.close()
+				s.dispose()
 				s.finish("sync", out)
 				if k < 2 {
 					run.Sample(map[string]any{"case": sc, "sync_point": s.p, "restarts": s.restarts, "wrong_data_injected": s.wrong, "operations": len(s.ops), "comparisons_with_source": s.compared})
@@ -151,10 +204,10 @@ func syncPart(t *testing.T, run *ev.Run) {
 			stream := uint64(src.idx)*1000 + uint64(k) + 700
 			r := rng.New(stream + 500)
 			mode := "mpt"
-			if (si+k)%2 == 1 {
+			if k%2 == 1 {
 				mode = "storage"
 			}
-			sc := syncCase{ID: fmt.Sprintf("crash/%d/%d/recorded-run", src.idx, k), Src: src.idx, Mode: mode, Stream: stream, Flush: 120, Record: true, Feed: -1,
+			sc := syncCase{ID: fmt.Sprintf("crash/%d/%d-%s/recorded-run", src.idx, k, mode), Src: src.idx, Mode: mode, Stream: stream, Flush: 120, Record: true, Feed: -1,
 				Remote: lo + uint32(r.Intn(int(hi-lo+1)))}
 			jobs = append(jobs, syncJob{sc.ID, func() { crashRun(t, run, sc, src, other) }})
 		}
@@ -167,6 +220,7 @@ func syncPart(t *testing.T, run *ev.Run) {
 // two batches leaves behind. The node must come up, finish the bootstrap
 // (resuming the state jump where it was interrupted) and equal the source.
 func crashRun(t *testing.T, run *ev.Run, sc syncCase, src, other *srcChain) {
+	sc.Backend = "mem"
 	st := vchain.NewRecStore(storage.NewMemoryStore(), true)
 	s := newSyncer(t, run, sc, src, other, st)
 	out := s.open("fresh-node")
@@ -203,7 +257,7 @@ func crashRun(t *testing.T, run *ev.Run, sc syncCase, src, other *srcChain) {
 		}
 		stage := jumpStageName(content)
 		c2 := sc
-		c2.ID = fmt.Sprintf("crash/%d/%s/prefix%d-of-%d/%s", src.idx, sc.Mode, k, len(log), where)
+		c2.ID = fmt.Sprintf("%sprefix%d-of-%d/%s", strings.TrimSuffix(sc.ID, "recorded-run"), k, len(log), where)
 		c2.Record, c2.Flush, c2.Feed, c2.Chaos = false, 0, 4, false
 		c2.Stream = sc.Stream*100 + uint64(k)
 		jobs = append(jobs, syncJob{c2.ID, func() {
